@@ -91,6 +91,9 @@ def templates(tier, seed):
     for N in ((1, 2) if tier == "quick" else (1, 2, 3)):
         for shape in ("mi", "mi_filtered"):
             ts.append(Template(f"{shape}/float/N={N}", t_inf, (shape, ["float"], N, True)))
+    for N in ((2, 3) if tier == "quick" else (1, 2, 3, 4)):
+        for shape in ("frame_default_index", "frame_reversed"):
+            ts.append(Template(f"{shape}/float/N={N}", t_inf, (shape, ["float"], N, True)))
     ts.append(Template("LEMMA/monotone", lemma, ("monotone",)))
     ts.append(Template("LEMMA/reflexive", lemma, ("reflexive",)))
     return ts
